@@ -10,16 +10,18 @@ LEAN_TARGETS = ["PV.C15.Thm"]
 DRIVER = "drv_c15"
 HARNESS = {"bin": "pvh_c15", "features": "default"}
 THEOREMS = [
-    # "PV.C15.splitLines_flatten",
-    # "PV.C15.lineStarts_spec",
-    # "PV.C15.lineCount_eq_breaks_succ",
-    # "PV.C15.lineIndex_spec",
-    # "PV.C15.sourceLocation_row",
-    # "PV.C15.sourceLocation_column",
-    # "PV.C15.next_spec",
-    # "PV.C15.nextBack_spec",
-    # "PV.C15.iter_any_interleaving",
-    # "PV.C15.asStr_spec",
+    "PV.C15.splitLines_flatten",
+    "PV.C15.indexLines_partition",
+    "PV.C15.rowOf_contains",
+    "PV.C15.lineStarts_spec",
+    "PV.C15.lineCount_eq_breaks_succ",
+    "PV.C15.lineIndex_spec",
+    "PV.C15.sourceLocation_row",
+    "PV.C15.sourceLocation_column",
+    "PV.C15.next_spec",
+    "PV.C15.nextBack_spec",
+    "PV.C15.iter_any_interleaving",
+    "PV.C15.asStr_spec",
     "PV.C15.contains_iff_mem",
     "PV.C15.containsRange_iff_subset",
     "PV.C15.intersect_set",
